@@ -9,6 +9,7 @@ ID = "C13"
 LEVEL = "exploration"
 ENV = {"x64": False, "devices": 8}
 BUDGET = {"quick": 150, "thorough": 3000}
+SHRINK_S = {"quick": 12, "thorough": 120}      # every evaluation compiles several pmaps: keep shrinking short
 RULE = (
     "Hypothesis-built trees (1-3 leaves, blocked so that the number N of "
     "statistics ranges over 1..~30) x mode {full, int16-quantised, compressed "
@@ -47,7 +48,8 @@ def _case(draw, kinds):
        "preconditioning_compute_steps": draw(st.sampled_from([1, 2])),
        "graft_type": draw(st.sampled_from(["SGD", "RMSPROP", "NONE"])),
        "reuse_preconditioner": draw(st.booleans()), "matrix_epsilon": 1e-3,
-       "best_effort_shape_interpretation": draw(st.booleans()), "beta1": 0.9}
+       "best_effort_shape_interpretation": draw(st.booleans()), "beta1": 0.9,
+       "generate_training_metrics": draw(st.booleans())}
   if mode == "quantized":
     o["best_effort_memory_usage_reduction"] = True
   elif mode == "compressed":
@@ -64,7 +66,20 @@ def _case(draw, kinds):
   ds = sorted(draw(st.lists(st.sampled_from(DS), min_size=2, max_size=3, unique=True)))
   t = draw(st.integers(1, 4))
   return {"kind": kind, "mode": mode, "shapes": shapes, "o": o, "ds": ds,
-          "steps": [{"kind": "dense", "seed": draw(st.integers(0, 2**16)), "exp": 0} for _ in range(t)]}
+          # an overflowing step in the FIRST leaf only (-> some roots rejected, others accepted), and only for the
+          # Newton modes: LAPACK eigh / svd on non-finite input can spin forever on CPU (the library itself guards
+          # its Sketchy svd for that reason)
+          "steps": [{"kind": "dense", "seed": draw(st.integers(0, 2**16)), "exp": 0,
+                     "spike": (draw(st.sampled_from([False, False, True])) if mode in ("full", "quantized") else False)}
+                    for _ in range(t)]}
+
+
+def _history(case, shapes):
+  hist = dsh.history_np(case["steps"], shapes)
+  for spec, gs in zip(case["steps"], hist):
+    if spec.get("spike"):
+      gs[0] = gs[0] * 1e25
+  return hist
 
 
 def shards(tier):
@@ -151,8 +166,13 @@ def _cmp_tree(a, b, rtol, clause, what):
     xf, yf = x.astype(np.float64), y.astype(np.float64)
     if "training_metrics" in jax.tree_util.keystr(path):
       continue      # diagnostics (iteration counts) are not part of "updates and state" compared numerically
-    scale = max(float(np.max(np.abs(xf))), float(np.max(np.abs(yf))), 1e-30)
-    r = float(np.max(np.abs(xf - yf))) / scale
+    fin = np.isfinite(xf) & np.isfinite(yf)
+    require(bool(np.all(np.isfinite(xf) == np.isfinite(yf))), clause,
+            f"{what} {jax.tree_util.keystr(path)}: non-finite entries at different positions")
+    if not np.any(fin):
+      continue
+    scale = max(float(np.max(np.abs(xf[fin]))), float(np.max(np.abs(yf[fin]))), 1e-30)
+    r = float(np.max(np.abs(xf[fin] - yf[fin]))) / scale
     worst = max(worst, r / rtol)
     require(r <= rtol, clause, f"{what} {jax.tree_util.keystr(path)}: relative difference {r:.3g} (tolerance {rtol:.1g})")
   return worst
@@ -162,7 +182,7 @@ def check_pmap(case):
   import jax
   shapes = [tuple(s) for s in case["shapes"]]
   params = dsh.params_from(shapes)
-  hist = dsh.history_np(case["steps"], shapes)
+  hist = _history(case, shapes)
   N = _nstats(case["o"], shapes)
   rtol = 1e-4 if case["mode"] in ("compressed", "eigh") else 1e-6
   if case["mode"] == "quantized":
@@ -215,7 +235,7 @@ def check_sharded(case):
   o.pop("best_effort_memory_usage_reduction", None)
   case = dict(case, o=o)
   params = dsh.params_from(shapes)
-  hist = dsh.history_np(case["steps"], shapes)
+  hist = _history(case, shapes)
   N = _nstats(o, shapes)
   rtol = 1e-4 if case["mode"] in ("compressed", "eigh") else 1e-6
   try:
@@ -235,9 +255,12 @@ def check_sharded(case):
         worst = max(worst, _cmp_tree(ud, u1, rtol, "updates-equal-single-device", f"{what} step {c} update"))
       gb, gd = base_s.stats.global_stats, s.stats.global_stats
       for nm, a, b in (("statistics", gd.statistics, gb.statistics), ("preconditioners", gd.preconditioners, gb.preconditioners)):
-        a, b = np.asarray(a)[:N], np.asarray(b)[:N]
-        scale = max(float(np.max(np.abs(b), initial=0.0)), 1e-30)
-        r = float(np.max(np.abs(a - b), initial=0.0)) / scale
+        a, b = np.asarray(a, np.float64)[:N], np.asarray(b, np.float64)[:N]
+        require(bool(np.all(np.isfinite(a) == np.isfinite(b))), "state-equals-single-device",
+                f"{what}: global {nm} have non-finite entries at different positions")
+        fin = np.isfinite(a) & np.isfinite(b)
+        scale = max(float(np.max(np.abs(b[fin]), initial=0.0)), 1e-30)
+        r = float(np.max(np.abs(a[fin] - b[fin]), initial=0.0)) / scale
         require(r <= rtol, "state-equals-single-device", f"{what}: global {nm} of the real slots differ by {r:.3g}")
       for n in names:
         la = jax.tree.leaves(s.stats.local_stats[n]._replace(training_metrics=None)) if hasattr(s.stats.local_stats[n], "_replace") else \
@@ -245,8 +268,11 @@ def check_sharded(case):
         lb = jax.tree.leaves(base_s.stats.local_stats[n].replace(training_metrics=None))
         for x, y in zip(la, lb):
           x, y = np.asarray(x, np.float64), np.asarray(y, np.float64)
-          scale = max(float(np.max(np.abs(y), initial=0.0)), 1e-30)
-          require(float(np.max(np.abs(x - y), initial=0.0)) / scale <= rtol, "state-equals-single-device",
+          fin = np.isfinite(x) & np.isfinite(y)
+          require(bool(np.all(np.isfinite(x) == np.isfinite(y))), "state-equals-single-device",
+                  f"{what}: local state of {n} has non-finite entries at different positions")
+          scale = max(float(np.max(np.abs(y[fin]), initial=0.0)), 1e-30)
+          require(float(np.max(np.abs(x[fin] - y[fin]), initial=0.0)) / scale <= rtol, "state-equals-single-device",
                   f"{what}: local state of {n} differs")
       if N % D != 0:
         nontrivial = True
